@@ -428,6 +428,14 @@ def run(ctx: Context, rep) -> None:
            where="DatasetStructure",
            construct=f"hash_checksum_algorithms: {short(ann)}",
            message="the configuration is an ordered tuple of known names")
+    from sa.rules import shared
+    shared.check_no_memo(ctx, rep, "C16.memo")
+    # a parent list records the digest of the child list as it is on disk
+    # now: re-attached child records come from the child's own merge in this
+    # call (same rule as C04.fresh)
+    from sa.rules.c04 import check_fresh_records
+    check_fresh_records(ctx, rep, "C16.fresh")
+
 
 
 _U = "src/sedpack/io/utils.py"
